@@ -148,6 +148,9 @@ def _account(st, harness, params, ex):
                         harness.name, params, ok[:300], ok2[:300]))
             last = max([i for i, c in enumerate(full) if c[0] != 0] or [-1])
             st.violations.append((key, what, {"harness": harness.name, "params": params,
+                                              "harness_cfg": {"mode": getattr(harness, "mode", None), "codes": getattr(harness, "codes", None),
+                                                              "intra_cost": getattr(harness, "intra_cost", 1),
+                                                              "fair_k": getattr(harness, "fair_k", None)},
                                               "choices": [list(x) for x in full[:last + 1]], "cost": ex.cost,
                                               "deviations_at": [(i, ex.trace[i][3]) for i, c in enumerate(full) if c[0] != 0],
                                               "verdict": ex.verdict, "obs": ex.obs}))
@@ -300,6 +303,16 @@ def audit(harness, param_list, jobs=None):
 
 
 def replay(harness, witness):
+    cfg = witness.get("harness_cfg") or {}
+    # the witness may come from a pass at another granularity / code set than the default harness of the check
+    if cfg.get("mode") and hasattr(harness, "mode"):
+        harness.mode = cfg["mode"]
+    if cfg.get("codes") is not None and hasattr(harness, "codes") and isinstance(cfg["codes"], (str, list)):
+        harness.codes = cfg["codes"]
+    if cfg.get("intra_cost"):
+        harness.intra_cost = cfg["intra_cost"]
+    if hasattr(harness, "_ready"):
+        harness._ready = False
     harness.setup_process()
     prefix = tuple((c, n) for c, n in witness["choices"])
     ex = run_execution(harness, witness["params"], prefix)
